@@ -230,8 +230,8 @@ class Env:
         return self._ec(k)
 
     def classifier(self, exc: BaseException):
-        self._fault("classifier")
         n = self._exc_id(exc)
+        self._fault("classifier", attempt=n)
         if n == NONE:
             n = NOT_OURS
         if isinstance(exc, OpError):
@@ -242,7 +242,7 @@ class Env:
         return self._classification(k, ra)
 
     def rclassifier(self, value: Any):
-        self._fault("rclassifier")
+        self._fault("rclassifier", attempt=self._val_id(value))
         mine = any(value is v for v in self.values)
         n = value.attempt if mine else NOT_OURS
         if not mine or value.klass is None:
@@ -302,14 +302,16 @@ class Env:
         return {"sleep": SleepDecision.SLEEP, "defer": SleepDecision.DEFER,
                 "abort": SleepDecision.ABORT}[dec]
 
-    def _fault(self, site: str) -> None:
-        """C08 fault enumeration: raise the configured exception at the k-th call of a site."""
+    def _fault(self, site: str, attempt: int | None = None) -> None:
+        """Fault injection: raise the configured exception at the k-th call of a site (for the
+        classifiers: when asked about attempt k's exception / value)."""
         f = self.site_fault
         if not f or f.get("site") != site:
             return
         self.site_calls[site] = self.site_calls.get(site, 0) + 1
-        if f.get("at", 1) == self.site_calls[site] and (f.get("call") is None
-                                                         or f["call"] == self.call_index):
+        hit = (f.get("at", 1) == attempt) if attempt is not None else \
+            (f.get("at", 1) == self.site_calls[site])
+        if hit and (f.get("call") is None or f["call"] == self.call_index):
             self.trace.append({"e": "fault", "site": site, "kind": f["kind"]})
             raise make_exc(f["kind"])
 
@@ -578,34 +580,92 @@ def split_runs(events: list[dict]) -> list[list[dict]]:
     return runs
 
 
-ENTRY_POINTS = ("Retry", "AsyncRetry")
+ENTRY_POINTS = ("Retry", "Policy", "RetryPolicy", "Retry.context", "Policy.context",
+                "RetryPolicy.context", "decorator",
+                "AsyncRetry", "AsyncPolicy", "AsyncRetryPolicy", "AsyncRetry.context",
+                "AsyncPolicy.context", "AsyncRetryPolicy.context", "async-decorator")
+CALL_ONLY = {e for e in ENTRY_POINTS if "context" in e or "decorator" in e}
+
+
+def make_entry(entry: str, env: Env, ctor: dict, call: dict):
+    """-> invoke(mode) that performs one call through the named entry point and returns the
+    result (sync) or a coroutine (async).  `ctor`/`call` as built by retry_kwargs."""
+    import redress.policy as rp
+
+    is_async = entry.startswith(("Async", "async"))
+    op = env.aop if is_async else env.op
+    base = entry.split(".")[0]
+    if base in ("Retry", "AsyncRetry"):
+        obj = getattr(rp, base)(**ctor)
+    elif base in ("Policy", "AsyncPolicy"):
+        inner = (rp.AsyncRetry if is_async else rp.Retry)(**ctor)
+        obj = getattr(rp, base)(retry=inner)
+    elif base in ("RetryPolicy", "AsyncRetryPolicy"):
+        obj = getattr(rp, base)(**ctor)
+    elif base in ("decorator", "async-decorator"):
+        deco_kw = dict(ctor)
+        deco_kw.update({k: v for k, v in call.items()
+                        if k in ("on_metric", "on_log", "operation", "abort_if",
+                                 "on_attempt_start", "on_attempt_end")})
+        if is_async:
+            async def target():
+                return await env.aop()
+        else:
+            def target():
+                return env.op()
+        wrapped = rp.retry(**deco_kw)(target)
+        return lambda mode: wrapped()
+    else:
+        raise AssertionError(entry)
+    if entry.endswith(".context"):
+        if is_async:
+            async def via_ctx(mode):
+                async with obj.context(**call) as r:
+                    return await r(op)
+            return via_ctx
+        def via_ctx_sync(mode):
+            with obj.context(**call) as r:
+                return r(op)
+        return via_ctx_sync
+    return lambda mode: (obj.call if mode == "call" else obj.execute)(op, **call)
 
 
 def run_scenario(cfg: dict, events: list[dict], *, entry: str, perm=None, place: str = "call",
                  async_callbacks: bool = False, hook_fault: dict | None = None,
-                 wall: str = "jump") -> list[dict]:
+                 wall: str = "jump", site_fault: dict | None = None, hooks: bool = False,
+                 force_mode: str | None = None, timeline: bool = False) -> list[dict]:
     """Execute the scenario through one entry point of the real library; returns the observed
     event list (same vocabulary as M's behaviours)."""
-    is_async = entry.startswith("Async")
+    is_async = entry.startswith(("Async", "async"))
     env = Env(cfg, events, perm=perm, is_async=is_async, async_callbacks=async_callbacks,
               hook_fault=hook_fault, wall=wall)
-    import redress.policy as rp
-
+    env.site_fault = site_fault
     ctor, call = retry_kwargs(env, cfg, place=place)
+    if hooks:
+        call.update(on_attempt_start=env.astart, on_attempt_end=env.aend)
     with vtime.use_clock(env.clock):
-        obj = getattr(rp, entry)(**ctor)
-        for run in split_runs(events):
-            mode = next((e["mode"] for e in run if e["e"] == "deliver"), "exec")
+        invoke = make_entry(entry, env, ctor, call)
+        for ci, run in enumerate(split_runs(events)):
+            mode = force_mode or next((e["mode"] for e in run if e["e"] == "deliver"), "exec")
+            env.call_index = ci
             env.start_run()
-            method = obj.call if mode == "call" else obj.execute
+            tl = None
+            call.pop("capture_timeline", None)
+            if timeline and mode == "exec":
+                from redress.policy.types import RetryTimeline
+                tl = RetryTimeline()
+                call["capture_timeline"] = tl
             try:
-                if is_async:
-                    res = drive(method(env.aop, **call))
-                else:
-                    res = method(env.op, **call)
+                res = drive(invoke(mode)) if is_async else invoke(mode)
             except BaseException as exc:  # noqa: BLE001 - whatever leaves the entry point is observed
                 view = env.view_of_exception(exc)
             else:
                 view = env.view_of_return(res) if mode == "call" else env.view_of_outcome(res)
+            if tl is not None:
+                env.trace.append({"e": "timeline", "events": [
+                    {"name": te.event, "n": te.attempt, "sleep": ticks(te.sleep_s),
+                     "k": env._cname(te.error_class) if te.error_class is not None else "-",
+                     "stop": te.stop_reason.value if te.stop_reason is not None else "-",
+                     "cause": te.cause if te.cause is not None else "-"} for te in tl.events]})
             env.trace.append({"e": "deliver", "mode": mode, "v": view, "t": env.now()})
     return env.trace
